@@ -1,6 +1,7 @@
 package rules
 
 import (
+	"go/types"
 	"go/token"
 	"strings"
 
@@ -350,17 +351,29 @@ func r18_2(r *Report, p *Program) {
 	}
 	r.Check(rule, FK(f)+"[close-fn-wired]", p.Pos(f.Pos()), okW, "shared informer is created with this close function", "the close function is not handed to newSharedResourceInformer")
 	if cf := fn(r, p, rule, "dynamic/informer.ResourceInformer.Close"); cf != nil {
-		okX := false
-		n := 0
-		for _, b := range engine.BlocksInl(cf) {
-			for _, in := range b.Instrs {
-				if c, isC := in.(*ssa.Call); isC {
-					n++
-					okX = E(c.Common().Value) == "p0.sharedResourceInformer.close"
-				}
+		// every path through Close calls the close field of the shared informer — itself, or through one
+		// module method of the shared informer that does so on every path
+		callsCloseField := func(g *ssa.Function, recv string) func(in ssa.Instruction) bool {
+			return func(in ssa.Instruction) bool {
+				c, isC := in.(*ssa.Call)
+				return isC && !c.Common().IsInvoke() && E(c.Common().Value) == recv+".close"
 			}
 		}
-		r.Check(rule, FK(cf), p.Pos(cf.Pos()), okX && n == 1, "Close = sharedResourceInformer.close()", "ResourceInformer.Close does not call exactly the shared close function")
+		alwaysCloses := func(g *ssa.Function, recv string) bool {
+			return len(g.Blocks) > 0 && engine.Query{Fn: g, CutInstr: callsCloseField(g, recv), Target: func(in ssa.Instruction) bool { _, isR := in.(*ssa.Return); return isR }}.Find() == nil
+		}
+		okX := alwaysCloses(cf, "p0.sharedResourceInformer")
+		if !okX {
+			okX = engine.Query{Fn: cf, CutInstr: func(in ssa.Instruction) bool {
+				c, isC := in.(*ssa.Call)
+				if !isC {
+					return false
+				}
+				g := engine.StaticFn(c.Common())
+				return g != nil && strings.HasPrefix(FK(g), engine.ModPrefix) && len(c.Common().Args) > 0 && E(c.Common().Args[0]) == "p0.sharedResourceInformer" && alwaysCloses(g, "p0")
+			}, Target: func(in ssa.Instruction) bool { _, isR := in.(*ssa.Return); return isR }}.Find() == nil
+		}
+		r.Check(rule, FK(cf), p.Pos(cf.Pos()), okX, "every Close() reaches sharedResourceInformer.close()", "ResourceInformer.Close does not reach the shared close function on every path")
 	}
 }
 
@@ -1025,6 +1038,8 @@ func subscriptionHandles(r *Report, p *Program, rule string) {
 				}
 				if len(f.Params) >= 3 && st.Val == ssa.Value(f.Params[2]) {
 					ok = true
+				} else if mc, isMC := st.Val.(*ssa.MakeClosure); isMC && len(f.Params) >= 3 && closureAlwaysCalls(mc, f.Params[2]) {
+					ok = true // a plain wrapper (e.g. logging) that calls the factory's close on every path, every time
 				} else {
 					ok, why = false, "the stored close function is "+E(st.Val)+", not the factory's own: a wrapper (once-only, conditional …) keeps later Close() calls from reaching the reference count, so the shared informer is never stopped"
 				}
@@ -1054,4 +1069,34 @@ func subscriptionHandles(r *Report, p *Program, rule string) {
 		}
 		r.Check(rule, FK(f)+"[own-handle]", p.Pos(f.Pos()), ok, "no shared registration handed out", why)
 	}
+}
+
+// closureAlwaysCalls: the closure captures v and every path through its body calls v (no state, no early exit).
+func closureAlwaysCalls(mc *ssa.MakeClosure, v ssa.Value) bool {
+	fn, ok := mc.Fn.(*ssa.Function)
+	if !ok || len(fn.Blocks) == 0 {
+		return false
+	}
+	var fv *ssa.FreeVar
+	for i, b := range mc.Bindings {
+		if b == v && i < len(fn.FreeVars) {
+			fv = fn.FreeVars[i]
+		}
+	}
+	if fv == nil {
+		return false
+	}
+	for _, fvo := range fn.FreeVars {
+		if fvo != fv {
+			if _, isPtr := fvo.Type().Underlying().(*types.Pointer); isPtr {
+				return false // captures other state (a flag, a sync.Once …)
+			}
+		}
+	}
+	calls := func(in ssa.Instruction) bool {
+		c, isC := in.(*ssa.Call)
+		return isC && !c.Common().IsInvoke() && c.Common().Value == ssa.Value(fv)
+	}
+	// no return reachable without passing a call of v
+	return engine.Query{Fn: fn, CutInstr: calls, Target: func(in ssa.Instruction) bool { _, isR := in.(*ssa.Return); return isR }}.Find() == nil
 }
